@@ -3,7 +3,8 @@
 drawn, only getters are called.  Events are appended to the worker's trace:
 
   ["c05cov",  day, method, site, eqg, comp, k, emission_id, repairable, start_day, rate,
-              stored_before, stored_after, emitting, own_probability, [[p, result], ...], own_temporal_probability]
+              stored_before, stored_after, emitting, own_probability, [[p, result], ...], own_temporal_probability,
+              [raw _emitting flag | None, emitting days booked, active days booked, active_duration | None, inactive_duration | None]]
                                                             every Emission.check_spatial_cov call; the last two:
                                                             this emission's coverage probability for the method and
                                                             the Bernoulli draws made inside the call
@@ -108,7 +109,11 @@ def install(job):
                            self._emissions_id, bool(self._repairable), di(self._start_date), float(self._rate),
                            None if before is None else int(before), None if after is None else int(after),
                            bool(self.is_emitting()), float(self._tech_spat_cov_probs[method]), draws,
-                           float(self._tech_temp_cov_probs[method])])
+                           float(self._tech_temp_cov_probs[method]),
+                           # the emission's own bookkeeping, read-only: raw emitting flag, emitting days and active
+                           # days booked so far, on / off durations (None for persistent emissions)
+                           [getattr(self, "_emitting", None), int(self.get_days_emitting()), int(self._active_days),
+                            getattr(self, "_active_duration", None), getattr(self, "_inactive_duration", None)]])
         except Exception as e:  # never disturb the run
             EVENTS.append(["c05-error", repr(e)])
         return out
